@@ -1,5 +1,278 @@
-(** C05 — placeholder, replaced once the proofs are in. *)
-From CM Require Import Maintain.Model Maintain.Spec.
-Theorem C05_placeholder : True.
-Proof. exact I. Qed.
-Print Assumptions C05_placeholder.
+(** C05 — Maintenance renews what is due, once, and keeps serving valid certificates.
+
+    Statements only (each closed by [exact] of a lemma of [Maintain.Proofs] / [Maintain.Inv]),
+    about the model [Maintain.Model]: states hold shared storage, the certificate cache, the
+    job manager's jobs, passes between scan and act, the issuer's mood; a history is any list
+    of events [PassScan p | PassAct p | ExtRenew n sans | SetIssuer n fails | JobStep n k |
+    Manage n async]. All theorems hold for every well-formed state ([WF]: an invariant,
+    [C05_wf_invariant]) and every history; parameters: [od] = which names are served by an
+    on-demand configuration, [idue] = whether the issuer hands out certificates that are
+    already due. *)
+From Coq Require Import List Arith Bool.
+From CM Require Import Maintain.Model Maintain.Spec Maintain.Base Maintain.Inv Maintain.Proofs.
+Import ListNotations.
+
+(** ** Invariant. Its components include: identities are unique; what is stored under a name is a
+    managed certificate for that name; passes and renewal jobs only ever hold certificates that
+    are managed, not on-demand and due; at most one renewal job per name; at most one job
+    holds a name's lock. *)
+Theorem C05_wf_invariant : forall od idue s h, WF od s -> WF od (run od idue s h).
+Proof. exact WF_run. Qed.
+Print Assumptions C05_wf_invariant.
+
+(** ** "Each maintenance pass ... leaves those outside their renewal window untouched" —
+    in fact nothing (no pass, job, retry, manage call, external renewal, in any order) ever
+    takes a certificate out of the cache that is not due, or unmanaged, or managed on demand;
+    it keeps answering for all of its names. *)
+Theorem C05_pass_leaves_not_due_untouched : forall od idue s h c,
+  WF od s -> In c (cache s) ->
+  cdue c = false \/ cman c = false \/ od (chead c) = true ->
+  In c (cache (run od idue s h)) /\
+  forall m, In m (cnames c) -> In c (resolve m (cache (run od idue s h))).
+Proof.
+  intros od idue s h c W Hc D.
+  assert (E : eligible od c = false).
+  { unfold eligible. destruct D as [D|[D|D]]; rewrite D; cbn; auto using andb_false_r.
+    rewrite andb_false_r; reflexivity. }
+  pose proof (run_cache_keeps od idue s h c W Hc E) as K. split; auto.
+  intros m Hm. apply In_resolve; split; auto. apply has_name_In; auto.
+Qed.
+Print Assumptions C05_pass_leaves_not_due_untouched.
+
+(** a pass itself never writes storage and never contacts the issuer; its scan changes
+    nothing; the jobs its act submits are renewal jobs for certificates that are due *)
+Theorem C05_pass_writes_nothing : forall od idue s p,
+  (let s' := step od idue s (PassScan p) in
+   store s' = store s /\ cache s' = cache s /\ jobs s' = jobs s /\ issued s' = issued s /\
+   failed s' = failed s /\ failing s' = failing s /\ next s' = next s) /\
+  (let s' := step od idue s (PassAct p) in
+   store s' = store s /\ issued s' = issued s /\ failed s' = failed s /\
+   failing s' = failing s /\ next s' = next s).
+Proof. intros; split; [apply pass_scan_frame | apply pass_act_frame]. Qed.
+Print Assumptions C05_pass_writes_nothing.
+
+Theorem C05_pass_submits_only_for_due : forall od idue s p j,
+  WF od s -> In j (jobs (step od idue s (PassAct p))) ->
+  In j (jobs s) \/
+  exists old, j = Job (chead old) JRenew (Some old) Queued /\ eligible od old = true.
+Proof. exact pass_act_jobs. Qed.
+Print Assumptions C05_pass_submits_only_for_due.
+
+(** ** "for each one that is due it either adopts an already-renewed certificate found in shared
+    storage without contacting the issuer ..." *)
+Theorem C05_adopts_external_renewal : forall od idue s p c st,
+  WF od s -> take_pass p (passes s) = None ->
+  In c (cache s) -> eligible od c = true ->
+  stored (store s) (chead c) = Some st -> cdue st = false ->
+  let s' := step od idue (step od idue s (PassScan p)) (PassAct p) in
+  In st (cache s') /\ ~ In c (cache s') /\
+  (forall m, In m (cnames st) -> In st (resolve m (cache s'))) /\
+  store s' = store s /\ issued s' = issued s /\ failed s' = failed s /\
+  filter (is_renew_for (chead c)) (jobs s') = filter (is_renew_for (chead c)) (jobs s).
+Proof. exact adopts_external_renewal. Qed.
+Print Assumptions C05_adopts_external_renewal.
+
+(** the same with anything happening between the scan and the act of that pass (other passes,
+    jobs, external renewals, ...): the pass adopts what storage holds when it acts *)
+Theorem C05_adopts_external_renewal_interleaved : forall od idue s p c h,
+  WF od s -> take_pass p (passes s) = None ->
+  In c (cache s) -> eligible od c = true -> stored_fresh (store s) (chead c) = true ->
+  Forall (not_pass p) h ->
+  let s1 := run od idue (step od idue s (PassScan p)) h in
+  let s2 := step od idue s1 (PassAct p) in
+  exists st, stored (store s1) (chead c) = Some st /\ cdue st = false /\
+             In st (cache s2) /\ ~ In c (cache s2) /\
+             store s2 = store s1 /\ issued s2 = issued s1 /\ failed s2 = failed s1.
+Proof. exact adopts_external_renewal_interleaved. Qed.
+Print Assumptions C05_adopts_external_renewal_interleaved.
+
+(** ** "... or renews it once and thereafter serves the new certificate for all of its names" *)
+
+(** at most one renewal job per name is queued or running, in every reachable state *)
+Theorem C05_renewal_jobs_deduplicated : forall od idue s h n,
+  WF od s ->
+  length (filter (is_renew_for n) (jobs (run od idue s h))) <= 1 /\
+  length (filter (is_locked_for n) (jobs (run od idue s h))) <= 1.
+Proof. exact renewal_jobs_deduplicated. Qed.
+Print Assumptions C05_renewal_jobs_deduplicated.
+
+(** the issuer is asked successfully only for a name whose stored certificate is absent or due *)
+Theorem C05_issue_only_if_absent_or_due : forall od idue s e,
+  issued (step od idue s e) = issued s \/
+  exists n, issued (step od idue s e) = n :: issued s /\
+            (stored (store s) n = None \/ exists st, stored (store s) n = Some st /\ cdue st = true).
+Proof. exact issue_only_if_absent_or_due. Qed.
+Print Assumptions C05_issue_only_if_absent_or_due.
+
+(** over any history a name is issued for at most once (hypothesis: the issuer's certificates
+    are not already due), and not at all if its stored certificate is fresh *)
+Theorem C05_renews_once : forall od s h n,
+  cnt (issued (run od false s h)) n <=
+  cnt (issued s) n + (if stored_fresh (store s) n then 0 else 1).
+Proof. intros od s h n. apply renews_once. reflexivity. Qed.
+Print Assumptions C05_renews_once.
+
+(** one due certificate, stale in storage too: pass, then the job's three steps *)
+Theorem C05_renewal_end_to_end : forall od idue s p c st,
+  WF od s -> take_pass p (passes s) = None ->
+  In c (cache s) -> eligible od c = true ->
+  scan_renew od (store s) (cache s) = [c] ->
+  stored (store s) (chead c) = Some st ->
+  is_failing s (chead c) = false -> no_job_for (chead c) (jobs s) = true ->
+  let n := chead c in
+  let s' := run od idue s [PassScan p; PassAct p; JobStep n 0; JobStep n 0; JobStep n 0] in
+  issued s' = n :: issued s /\ failed s' = failed s /\
+  stored (store s') n = Some (new_cert idue s n) /\
+  In (new_cert idue s n) (cache s') /\ ~ In c (cache s') /\
+  (forall m, In m (cnames (new_cert idue s n)) -> In (new_cert idue s n) (resolve m (cache s'))) /\
+  jobs s' = jobs s.
+Proof. exact renewal_end_to_end. Qed.
+Print Assumptions C05_renewal_end_to_end.
+
+(** ** "If renewal fails, the old certificate keeps being served" *)
+
+(** a failed attempt changes nothing but the issuer's log *)
+Theorem C05_failed_attempt_changes_nothing : forall od idue s n k,
+  failed (step od idue s (JobStep n k)) <> failed s ->
+  step od idue s (JobStep n k) = with_failed (with_err s false) (n :: failed s).
+Proof. exact failed_attempt_changes_nothing. Qed.
+Print Assumptions C05_failed_attempt_changes_nothing.
+
+(** a certificate leaves the cache only in an event that puts the certificate now stored under
+    its name in its place *)
+Theorem C05_removed_only_when_replaced : forall od idue s e x,
+  WF od s -> In x (cache s) -> ~ In x (cache (step od idue s e)) ->
+  exists st, stored (store (step od idue s e)) (chead x) = Some st /\ cid st <> cid x /\
+             In st (cache (step od idue s e)).
+Proof. exact step_removal. Qed.
+Print Assumptions C05_removed_only_when_replaced.
+
+(** and whatever enters the cache is what storage holds under its name *)
+Theorem C05_added_only_from_storage : forall od idue s e c,
+  WF od s -> In c (cache (step od idue s e)) -> ~ In c (cache s) ->
+  stored (store (step od idue s e)) (chead c) = Some c.
+Proof. exact step_added_from_storage. Qed.
+Print Assumptions C05_added_only_from_storage.
+
+(** while the issuer fails for its name and no other instance renews it, the cached
+    certificate (the one in storage) stays in service — through any passes, overlapping
+    passes, retries, manage calls, and whatever happens to other names *)
+Theorem C05_failed_renewal_keeps_serving : forall od idue s h c,
+  WF od s -> In c (cache s) -> stored (store s) (chead c) = Some c ->
+  is_failing s (chead c) = true ->
+  Forall (fun e => ~ touches_name (chead c) e) h ->
+  let s' := run od idue s h in
+  In c (cache s') /\ stored (store s') (chead c) = Some c /\
+  cnt (issued s') (chead c) = cnt (issued s) (chead c) /\
+  (forall m, In m (cnames c) -> In c (resolve m (cache s'))).
+Proof. exact failed_renewal_keeps_serving. Qed.
+Print Assumptions C05_failed_renewal_keeps_serving.
+
+(** ** "Managing a name loads its certificate from storage when a usable one exists, obtains one
+    only when none exists, and renews only when the stored one is due." *)
+Theorem C05_manage_load_else_obtain_renew_if_due : forall od idue s n,
+  WF od s -> od n = false -> lock_held (jobs s) n = false ->
+  let s' := step od idue s (Manage n false) in
+  jobs s' = jobs s /\
+  if managed_for n (cache s) then s' = with_err s false
+  else
+    match stored (store s) n with
+    | None =>
+        if is_failing s n then
+          lasterr s' = true /\ cache s' = cache s /\ store s' = store s /\ issued s' = issued s
+        else
+          lasterr s' = false /\ issued s' = n :: issued s /\
+          stored (store s') n = Some (new_cert idue s n) /\ In (new_cert idue s n) (cache s') /\
+          (forall x, In x (cache s) -> In x (cache s'))
+    | Some st =>
+        if cdue st then
+          if is_failing s n then
+            lasterr s' = true /\ In st (cache s') /\ store s' = store s /\ issued s' = issued s
+          else
+            lasterr s' = false /\ issued s' = n :: issued s /\
+            stored (store s') n = Some (new_cert idue s n) /\ In (new_cert idue s n) (cache s') /\
+            ~ In st (cache s')
+        else
+          lasterr s' = false /\ In st (cache s') /\ (forall x, In x (cache s) -> In x (cache s')) /\
+          store s' = store s /\ issued s' = issued s
+    end.
+Proof. exact manage_sync_spec. Qed.
+Print Assumptions C05_manage_load_else_obtain_renew_if_due.
+
+(** asynchronous management ends, after its background job's steps, where synchronous
+    management ends at once *)
+Theorem C05_manage_async_completes_like_sync : forall od idue s n,
+  is_failing s n = false -> no_job_for n (jobs s) = true ->
+  visible (run od idue s [Manage n true; JobStep n 0; JobStep n 0; JobStep n 0]) =
+  visible (step od idue s (Manage n false)).
+Proof. exact manage_async_completes_like_sync. Qed.
+Print Assumptions C05_manage_async_completes_like_sync.
+
+(** ** Non-vacuity: concrete well-formed states meeting the hypotheses *)
+Definition ex_od (n : name) : bool := n =? 2.
+Definition c0 := Cert 0 0 [3] true true.     (* due, managed, names 0 and 3 *)
+Definition c1 := Cert 1 1 [] false true.     (* fresh *)
+Definition c2 := Cert 2 2 [] true true.      (* due, on-demand name *)
+Definition c3 := Cert 3 0 [] true false.     (* due, unmanaged *)
+Definition c4 := Cert 4 0 [3] false true.    (* renewed by another instance *)
+(** storage already renewed for name 0 *)
+Definition ex_adopt : state :=
+  State [(0, c4); (1, c1); (2, c2)] [c0; c1; c2; c3] [] [] [] [] [] 5 false.
+(** storage as stale as the cache; the issuer fails for name 0 *)
+Definition ex_stale (fl : list name) : state :=
+  State [(0, c0); (1, c1); (2, c2)] [c0; c1; c2; c3] [] [] fl [] [] 5 false.
+
+Example ex_adopt_wf : WF ex_od ex_adopt.
+Proof. apply (wf_b_sound ex_od 4). vm_compute. reflexivity. Qed.
+Example ex_stale_wf : forall fl, WF ex_od (ex_stale fl).
+Proof. intros fl. apply (wf_b_sound ex_od 4). vm_compute. reflexivity. Qed.
+
+(** hypotheses of [C05_pass_leaves_not_due_untouched] (three kinds of certificate) *)
+Example ex_untouched :
+  In c1 (cache ex_adopt) /\ cdue c1 = false /\ In c3 (cache ex_adopt) /\ cman c3 = false /\
+  In c2 (cache ex_adopt) /\ ex_od (chead c2) = true.
+Proof. vm_compute. intuition. Qed.
+(** hypotheses of [C05_adopts_external_renewal] and its conclusion computed *)
+Example ex_adopts :
+  take_pass 7 (passes ex_adopt) = None /\ In c0 (cache ex_adopt) /\ eligible ex_od c0 = true /\
+  stored (store ex_adopt) (chead c0) = Some c4 /\ cdue c4 = false /\
+  cache (run ex_od false ex_adopt [PassScan 7; PassAct 7]) = [c1; c2; c3; c4].
+Proof. vm_compute. intuition. Qed.
+(** interleaved: a second pass and an external renewal in between *)
+Example ex_adopts_interleaved :
+  Forall (not_pass 7) [PassScan 8; ExtRenew 0 [3]; PassAct 8] /\
+  stored_fresh (store ex_adopt) (chead c0) = true.
+Proof. split; [repeat constructor; discriminate | reflexivity]. Qed.
+(** hypotheses of [C05_renewal_end_to_end] and the run computed *)
+Example ex_renewal :
+  scan_renew ex_od (store (ex_stale [])) (cache (ex_stale [])) = [c0] /\
+  is_failing (ex_stale []) (chead c0) = false /\ no_job_for (chead c0) (jobs (ex_stale [])) = true /\
+  let s' := run ex_od false (ex_stale []) [PassScan 1; PassAct 1; JobStep 0 0; JobStep 0 0; JobStep 0 0] in
+  cache s' = [c1; c2; c3; Cert 5 0 [] false true] /\ issued s' = [0] /\ jobs s' = [].
+Proof. vm_compute. intuition. Qed.
+(** hypotheses of [C05_failed_renewal_keeps_serving]: passes, retries, a manage call and an
+    external renewal of another name while the issuer fails for name 0 *)
+Example ex_failing :
+  let h := [PassScan 1; PassAct 1; JobStep 0 0; JobStep 0 0; JobStep 0 0; PassScan 2; PassAct 2;
+            ExtRenew 1 []; Manage 0 false; JobStep 0 0; SetIssuer 1 false] in
+  In c0 (cache (ex_stale [0])) /\ stored (store (ex_stale [0])) (chead c0) = Some c0 /\
+  is_failing (ex_stale [0]) (chead c0) = true /\
+  Forall (fun e => ~ touches_name (chead c0) e) h /\
+  failed (run ex_od false (ex_stale [0]) h) = [0; 0; 0].
+Proof.
+  cbn zeta. repeat split; try (vm_compute; intuition; fail).
+  repeat constructor; intros [[r H]|H]; discriminate.
+Qed.
+(** hypotheses of [C05_manage_load_else_obtain_renew_if_due]: name 3 has nothing in storage,
+    name 1 would be loaded, name 0 renewed *)
+Example ex_manage :
+  let s := State [(0, c0); (1, c1)] [] [] [] [] [] [] 5 false in
+  WF ex_od s /\ ex_od 3 = false /\ lock_held (jobs s) 3 = false /\
+  managed_for 3 (cache s) = false /\ stored (store s) 3 = None /\
+  stored (store s) 1 = Some c1 /\ stored (store s) 0 = Some c0 /\
+  cache (run ex_od false s [Manage 3 false; Manage 1 false; Manage 0 false]) =
+    [Cert 5 3 [] false true; c1; Cert 6 0 [] false true].
+Proof.
+  cbn zeta. split; [apply (wf_b_sound ex_od 4); vm_compute; reflexivity|].
+  vm_compute. intuition.
+Qed.
